@@ -10,6 +10,8 @@ mod c04;
 mod c05;
 mod c06;
 mod c07;
+mod c08;
+mod c09;
 mod c10;
 mod c11;
 mod c14;
@@ -44,6 +46,13 @@ fn main() {
         "c05" => c05::run(&rest),
         "c06" => c06::run(&rest),
         "c07" => c07::run(&rest),
+        "c08" => c08::run(&rest),
+        "c08-ranks" => c08::run_ranks(),
+        "c08-mr" => c08::run_mr(&rest),
+        "c08-ident" => c08::run_ident(&rest),
+        "c08-restart" => c08::run_restart(&rest),
+        "c09" => c09::run(&rest),
+        "rt-ranks" => c09::run_ranks(),
         "c10" => c10::run(&rest),
         "c11" => c11::run(&rest),
         "c10-gap" => c10::run_gap(&rest),
